@@ -119,7 +119,18 @@ UNITS = {
 }
 
 
+def discover_units():
+    """units_*.py next to this file may define UNITS = {name: fn(repo) -> (filename, text)}"""
+    import glob
+    import importlib
+    here = os.path.dirname(os.path.abspath(__file__))
+    for f in sorted(glob.glob(os.path.join(here, "units_*.py"))):
+        mod = importlib.import_module(os.path.basename(f)[:-3])
+        UNITS.update(getattr(mod, "UNITS", {}))
+
+
 def main(argv):
+    discover_units()
     repo, out = REPO, OUT
     names = []
     i = 0
